@@ -1,5 +1,7 @@
 """C08 - request/response correlation.
 
+C08.state  the registries (and every attribute the two registry-owning classes mutate in place) are bound per instance
+
 C08.reg    in both _sendIq the registry write dominates the send
 C08.pop    in both processIqRegistry: lookup by the reply's id, entry deleted before any callback runs,
            result -> success callback, error -> error callback, called with (reply, original request), True iff found
@@ -390,6 +392,17 @@ def rule_hist(ctx, tier):
             ctx.hold("C08.hist", w, "histories over 2 requests, length <= %d" % maxlen, "%d histories: every reply reached exactly its request's callback once; replays / unknown ids / non-replies invoked none" % n)
 
 
+def rule_state(ctx):
+    """the registries are per layer instance: a registry shared between instances (two stacks in one process, two
+    protocol layers) lets one layer consume - or answer for - another layer's request id"""
+    from ..state import per_instance_state
+    repo = ctx.repo
+    n = 0
+    for rel, cn in (("yowsup/layers/__init__.py", "YowProtocolLayer"), ("yowsup/layers/interface/interface.py", "YowInterfaceLayer")):
+        n += per_instance_state(ctx, "C08.state", repo.cls(rel, cn))
+    ctx.units["C08.state_attrs"] = n
+
+
 def run(ctx):
     ctx.rule("C08.reg", "registry write dominates the send, keyed by id", floor=6)
     ctx.rule("C08.pop", "entry removed before callbacks, result/error pairing, arguments, return value", floor=16)
@@ -397,10 +410,12 @@ def run(ctx):
     ctx.rule("C08.cb", "registered callbacks bind two arguments", floor=40)
     ctx.rule("C08.id", "process-wide id counter", floor=3)
     ctx.rule("C08.hist", "abstract execution of all bounded send/reply histories", floor=2)
+    ctx.rule("C08.state", "the registries are bound per layer instance by the constructors", floor=2)
     ctx.assume("dict semantics of CPython; callbacks' own behaviour is the application's")
-    rule_reg(ctx)
-    rule_pop(ctx)
-    rule_first(ctx)
-    rule_cb(ctx)
-    rule_id(ctx)
-    rule_hist(ctx, ctx.tier)
+    ctx.guarded("C08.reg", rule_reg, ctx)
+    ctx.guarded("C08.pop", rule_pop, ctx)
+    ctx.guarded("C08.first", rule_first, ctx)
+    ctx.guarded("C08.cb", rule_cb, ctx)
+    ctx.guarded("C08.id", rule_id, ctx)
+    ctx.guarded("C08.hist", rule_hist, ctx, ctx.tier)
+    ctx.guarded("C08.state", rule_state, ctx)
